@@ -13,7 +13,7 @@ import (
 func init() {
 	register(&propInfo{
 		ID:          "C14",
-		Explanation: "Static lockset analysis (must-hold sets per SSA instruction, entry sets propagated over static call sites) of every write-side use of the WebSocket, of the socket swap, of the message writer's lifetime and of every access to the shared per-connection tables. Decides, on all control paths of the current source, the structural necessary conditions for frames not to interleave: a common mutex at every gorilla write-side call and at the socket swap; the message writer obtained from NextWriter stays inside that critical section and is closed on every path; the lazily published writer is confined until its consumer returned; every shared table/flag has one guarding mutex held at every non-construction access. R14.1 also covers close control frames written with WriteControl. (R14.7) nothing handed to WriteJSON contains an un-marshalled parameter value.",
+		Explanation: "Static lockset analysis (must-hold sets per SSA instruction, entry sets propagated over static call sites) of every write-side use of the WebSocket, of the socket swap, of the message writer's lifetime and of every access to the shared per-connection tables. Decides, on all control paths of the current source, the structural necessary conditions for frames not to interleave: a common mutex at every gorilla write-side call and at the socket swap; the message writer obtained from NextWriter stays inside that critical section and is closed on every path; the lazily published writer is confined until its consumer returned; every shared table/flag has one guarding mutex held at every non-construction access. R14.1 also covers close control frames written with WriteControl. (R14.7) nothing handed to WriteJSON contains an un-marshalled parameter value. (R14.8) what is written to the socket is not assembled in a field of the connection object outside the write lock. (R14.9) an encoder over a socket message writer encodes once per message.",
 		NotDecided:  "Real interleavings, gorilla/websocket's own correctness, unlocked reads of the socket pointer on the read side (ordered by goroutine-spawn structure, not by a lock), payload well-formedness (values through encoding/json).",
 		Assumptions: []string{
 			"gorilla/websocket allows one concurrent writer; Close and WriteControl are documented as safe to call concurrently",
@@ -188,6 +188,8 @@ func runC14(c *Ctx) {
 	}
 
 	// ---- R14.8: bytes written to the socket are not kept in unguarded per-connection scratch memory
+	c.ruleOpt("R14.9", "one WebSocket message carries exactly one JSON value: an encoder built over a message writer obtained from the socket encodes once (no loop, no second Encode before the writer is closed)")
+	c.oneValuePerMessage("R14.9")
 	c.ruleOpt("R14.8", "what is written to the socket is not assembled in a field of the connection object outside the write lock (a scratch buffer shared by the loop, the forwarder and the cancel goroutines)")
 	{
 		n := 0
@@ -717,5 +719,53 @@ func (c *Ctx) pooledUseAfterPut(rule string) {
 			}, nil)
 			c.check(use == nil, rule, construct, c.ipos(put), "not used after Put", "the pooled object (or a byte slice taken from it) is still used after being returned to the pool: a concurrent user of the pool overwrites the bytes that are about to be written, so replies are duplicated, lost or blended")
 		})
+	}
+}
+
+// oneValuePerMessage: R14.9.
+func (c *Ctx) oneValuePerMessage(rule string) {
+	p := c.P
+	isSockWriter := func(v ssa.Value) bool {
+		return c.dependsOn(v, func(x ssa.Value) bool {
+			call, ok := x.(*ssa.Call)
+			return ok && calleeName(call) == "(*github.com/gorilla/websocket.Conn).NextWriter"
+		}, 0, map[ssa.Value]bool{})
+	}
+	n := 0
+	for _, fn := range p.Funcs {
+		if pkgOf(fn) != p.Root.Pkg {
+			continue
+		}
+		allInstrsRaw(fn, func(in ssa.Instruction) {
+			mk, ok := in.(*ssa.Call)
+			if !ok || calleeName(mk) != "encoding/json.NewEncoder" || !isSockWriter(mk.Common().Args[0]) {
+				return
+			}
+			var encs []*ssa.Call
+			for _, ref := range *mk.Referrers() {
+				if e, ok := ref.(*ssa.Call); ok && calleeName(e) == "(*encoding/json.Encoder).Encode" {
+					encs = append(encs, e)
+				}
+			}
+			for _, e := range encs {
+				n++
+				construct := fmt.Sprintf("%s: JSON values written into one socket message", fname(fn))
+				again := inLoop(e.Block()) && !inLoop(mk.Block())
+				if !again {
+					again = reachFrom(e, func(x ssa.Instruction) bool {
+						for _, o := range encs {
+							if x == ssa.Instruction(o) {
+								return true
+							}
+						}
+						return false
+					}, func(x ssa.Instruction) bool { return x == ssa.Instruction(mk) }) != nil
+				}
+				c.check(!again, rule, construct, c.ipos(e), "one Encode per message writer", "more than one JSON value is encoded into the same WebSocket message (a burst written through one writer): the peer decodes a message as one value, fails on the second one and drops the whole message")
+			}
+		})
+	}
+	if n == 0 {
+		c.ok(rule, "encoders over socket message writers", "-", "none (messages are written with WriteJSON or through the locked writer provider)")
 	}
 }
